@@ -383,10 +383,17 @@ def run(rep):
              '__ne__ evaluate no ordering comparison of the keys (the C twin compares the '
              'components with the caller\'s operator or Py_EQ), so unequal keys that are '
              'not orderable give the same answer on both (shared with C12 R12.6)', floor=3)
+    rep.rule('F15', 'the C query methods of a specification answer from the same source as '
+             'the Python twins: I.providedBy(ob) asks providedBy(ob), I.implementedBy(cls) '
+             'asks implementedBy(cls), isOrExtends reads the implied set (C02 R02.5)', floor=3)
     rep.decline('equality of results, exception points and subsequent '
                 'behaviour for arbitrary API programs (that is differential '
                 'execution; only the structural core is decided)')
 
+    # ---- F15 ----------------------------------------------------------------------
+    cside.sb_queries(rep, 'F15')
+    from .C02 import r02_5
+    r02_5(rep, imod, rule='F15')
     # ---- F1 -----------------------------------------------------------------------
     lookup_signatures(rep, u, amod, 'F1')
     from . import csem as _csem13
